@@ -169,6 +169,19 @@ def _history_child(calls):
             shim.arm_parse_fault(pf["at"], pf["kind"]) if pf else shim.arm_parse_fault()
             out.append(ops.execute_op(op, sb, i))
         shim.arm_parse_fault()
+        # what the history left behind must not stop *another thread* from parsing (a lock taken for a parse
+        # and never released is invisible to the thread that holds it when the lock is re-entrant)
+        import threading
+
+        box = []
+
+        def probe():
+            box.append(ops.execute_op({"api": "create_ast", "script": "DS_probe <- DS_1 + 1;", "kwargs": {}, "env": {}}, sb, 999))
+
+        th = threading.Thread(target=probe, name="c23-probe", daemon=True)
+        th.start()
+        th.join(20.0)
+        out.append(("hang", "a parse from another thread did not return within 20 s after this history") if th.is_alive() else box[0])
         return out
     finally:
         sb.cleanup()
@@ -177,7 +190,7 @@ def _history_child(calls):
 def _preparse(calls):
     from ..parser_standin import shim
 
-    t = []
+    t = ["DS_probe <- DS_1 + 1;", "DS_probe <- DS_1 + 1;\n"]
     for op in calls:
         if op.get("script") is not None:
             t += [op["script"], op["script"] + "\n"]
@@ -205,8 +218,21 @@ def _names_defined(script):
     return set(re.findall(r"define (?:hierarchical|datapoint) ruleset (\w+)|define operator (\w+)", script or ""))
 
 
+PROBE = {"api": "create_ast", "script": "DS_probe <- DS_1 + 1;", "structures": None, "data": None, "kwargs": {}, "env": {}, "output_folder": False}
+
+
 def judge(calls, got):
     viols = []
+    if len(got) == len(calls) + 1:
+        tail = got[-1]
+        got = got[:-1]
+        if tail[0] == "hang":
+            viols.append(("parse-from-another-thread-hangs-after-history", tail[1], {"api": "create_ast", "hierarchy_call": False}))
+        else:
+            d = ops.diff_outcomes(alone(PROBE), tail, compare_messages=True)
+            if d:
+                viols.append(("call-outcome-depends-on-earlier-parses", "probe parse from another thread after the history: " + d,
+                              {"api": "create_ast", "hierarchy_call": False}))
     for i, (op, oc) in enumerate(zip(calls, got)):
         if op.get("parse_fault"):
             continue        # this call was made to fail inside the parser call; what is judged is every call after it
